@@ -24,6 +24,7 @@ TEMPLATES = [
     ('select_list', "select 'X7X' as c1, 2 as c2"),
     ('where', "select a from t where b = 'X7X' and c = 1"),
     ('in_list', "select a from t where b in ('X7X', 'q')"),
+    ('in_list_pair', "select a from t where b in ('X7X', 'b)s', ':x')"),
     ('insert', "insert into t (a, b) values ('X7X', 2)"),
     ('update', "update t set a = 'X7X' where b = 2"),
 ]
@@ -84,12 +85,13 @@ def render(ast, target):
 
 def values(rng, tier):
     alpha = ["'", '\\', '%', ':', ';', '-', '\n', 'a']
-    out = ['', "\\' OR 1=1 -- ", "it's", "a\\", "''", "'", '\\', "x'; drop table t; --", '%s', ':name', 'a\\\'b']
+    out = ['', "\\' OR 1=1 -- ", "it's", "a\\", "''", "'", '\\', "x'; drop table t; --", '%s', ':name', 'a\\\'b',
+           '%(asctime)s %(message)s', '%(a', '%(x)s', '?', ':1', '%s %s', '$1', '@x', '%%', '{x}', '%(', ')s', '?, ?']
     mx = 3 if tier == 'quick' else 4
     for n in range(1, mx + 1):
         for tup in itertools.product(alpha, repeat=n):
             out.append(''.join(tup))
-    pool = alpha + ['"', ' ', 'é', '中', '\U0001f600', '\t', '\r', '\x00'[:0] or 'b', '/*', '*/', '--', '`']
+    pool = alpha + ['"', ' ', 'é', '中', '\U0001f600', '\t', '\r', 'b', '/*', '*/', '--', '`', '%(', ')s', '(', ')', 's', '?', '$', '{', '}']
     for _ in range(300 if tier == 'quick' else 5000):
         out.append(''.join(rng.choice(pool) for _ in range(rng.randint(1, 12))))
     return list(dict.fromkeys(out))
